@@ -65,7 +65,7 @@ def generated_programs(rng, n, **kw):
 
 
 REGEX_ATOMS = ["a", "b", "c", ".", "\\d", "\\D", "\\s", "\\S", "[abc]", "[^ab]", "[a-c]", "[a-cx]", "(a)", "(?:ab)", "(?<n>b)", "(a|b)", "a|b", "^", "$", "\\1", "\\k<n>", "\\.", "x"]
-REGEX_QUANT = ["", "", "", "*", "+", "?", "{2}", "{1,}", "{1,2}", "*?", "+?", "??", "{1,2}?", "{2}?", "{1,1}?", "{2,}?"]
+REGEX_QUANT = ["", "", "", "{1}", "{1}?", "{0}", "*", "+", "?", "{2}", "{1,}", "{1,2}", "*?", "+?", "??", "{1,2}?", "{2}?", "{1,1}?", "{2,}?"]
 
 
 def random_regex(rng, hostile=False):
@@ -153,6 +153,8 @@ def model_front(s):
         return ("crash", "")
     if s.startswith("(hang"):
         return ("hang", "")
+    if s.startswith("(resource"):
+        return ("resource", "")
     return ("other", s[:200])
 
 
@@ -205,6 +207,8 @@ def compare_front(ctx, sources, labels=None, impl_prop=True, stats=None):
         if not d["in_scope"]:
             continue
         mo = d["model"]
+        if mo[0] == "resource":
+            continue
         if mo[0] in ("crash", "hang", "other"):
             ctx.corr_break("MODEL-FRONT", {"source": s, "model": mo, "go": (g[0], g[1][:200])})
             continue
